@@ -27,6 +27,14 @@ class Violation(Exception):
     self.detail = detail
 
 
+class SpinDetected(Exception):
+  """The code under test kept calling a dead simulated socket without ever yielding (raised when the World ends)."""
+
+
+class SpinBreak(BaseException):
+  """Raised inside the spinning greenlet to end it."""
+
+
 class HarnessError(Exception):
   """The harness itself is broken / was used wrongly (exit 2, never a VIOLATION)."""
 
@@ -126,6 +134,7 @@ class World(object):
     _core.ClientProxyBuilder._PROXY_TYPE_CACHE.clear()
     _core.Scales.SERVICE_REGISTRY.clear()
     self.cleanups = []
+    self.spin = None
     return self
 
   def logged(self, substring, min_level=0):
@@ -158,4 +167,6 @@ class World(object):
       loop.reset()
       _SCALES_LOG.removeHandler(self.log)
       World.current = None
+    if self.spin is not None and (et is None or not issubclass(et, Violation)):
+      raise SpinDetected(self.spin)
     return False
